@@ -386,3 +386,25 @@ func C02LargeRaw() {
 	}
 	sym.Reach("large-raw-done")
 }
+
+// zzLongList: a list of n dynamic values (ints; first, middle and last symbolic).
+func zzLongList(n int) Value {
+	els := make([]Value, n)
+	for i := range els {
+		els[i] = Int(int32(i))
+	}
+	els[0], els[n/2], els[n-1] = Int(sym.I32("first")), Int(sym.I32("middle")), Int(sym.I32("last"))
+	return List(els)
+}
+
+// C02LongList: long lists of dynamic values (lengths around 32, 64 and 100: preallocation, depth and
+// chunking limits live there), also nested as the last element of another list: they round-trip.
+func C02LongList() {
+	n := []int{31, 32, 33, 63, 64, 65, 100}[sym.Choose("list-length", 7)]
+	v := zzLongList(n)
+	if sym.Bool("nested") {
+		v = List([]Value{String("head"), v})
+	}
+	zzRoundTrip(v, "long-list")
+	sym.Reach("long-list-done")
+}
